@@ -100,7 +100,12 @@ def execute_forked(history, body, want=("live", "reopen")):
 
 
 def _proj_c01(tree: dict) -> dict:
-    return {uid: {k: v for k, v in rec.items() if k in C01_FIELDS} for uid, rec in tree.items()}
+    out = {}
+    for uid, rec in tree.items():
+        out[uid] = {k: v for k, v in rec.items() if k in C01_FIELDS}
+        if "association" in rec and isinstance(rec.get("type"), dict):
+            out[uid]["type_uid"] = rec["type"].get("uid")  # a re-assigned data type is something the user did
+    return out
 
 
 def clauses_c01(ex, obs) -> list:
